@@ -47,6 +47,10 @@ structure FCfg where
   /-- flushLocked never hands more than 65535 entries to one block (the rest stays buffered and
       is written as further blocks) -/
   splitsOversizedBuffer : Bool := false
+  /-- `WriteEntry` returns the error of the flush it triggers (although the entry stays queued) -/
+  addReportsFlushError : Bool := true
+  /-- a `Close` that fails leaves the writer usable (the file stays open; a later Close retries) -/
+  closeKeepsWriter : Bool := false
   deriving DecidableEq, Repr
 
 def nextRes : List Res → Res × List Res
@@ -126,7 +130,10 @@ def flushWF (fc : FCfg) (mk : Mk) (s : FSt) : FSt :=
 /-- `WriteEntry` under faults; a failure is reported to the caller (who logs it and goes on) -/
 def addWF (fc : FCfg) (mk : Mk) (s : FSt) (e : Op) (sz : Nat) : FSt :=
   let s1 := { s with w := s.w.push e sz }
-  if s1.w.full then flushWF fc mk s1 else s1
+  if s1.w.full then
+    -- the entry is queued whatever happens to the flush; the repaired WriteEntry does not report its error
+    if fc.addReportsFlushError then flushWF fc mk s1 else { flushWF fc mk s1 with failed := s.failed }
+  else s1
 
 def addManyWF (fc : FCfg) (mk : Mk) (s : FSt) : List (Op × Nat) → FSt
   | [] => s
@@ -177,7 +184,9 @@ theorem addManyWFgo_eq (fc : FCfg) (mk : Mk) (items : List (Op × Nat)) :
     · rw [if_pos hf, if_pos (hfull.mpr hf), FSt.mat_push]
       rw [ih _ [] [] _ _ false (by simp)]
       congr 1
-      exact FSt.mat_nil { flushWF fc mk (s.mat (e :: pe) (sz :: ps) (bsz + sz) fl) with failed := false }
+      have e1 := FSt.mat_nil { flushWF fc mk (s.mat (e :: pe) (sz :: ps) (bsz + sz) fl) with failed := false }
+      rw [e1]
+      cases fc.addReportsFlushError <;> rfl
     · rw [if_neg hf, if_neg (fun h => hf (hfull.mp h)), FSt.mat_push]
       rw [ih s (e :: pe) (sz :: ps) (n + 1) (bsz + sz) false (by simp [hn]; omega)]
       rfl
@@ -334,13 +343,16 @@ def cSyncF (c : Cfg) (fc : FCfg) (mk : Mk) (st : CFSt) : CFOut :=
     let s := syncWF c fc mk { w := w, d := st.d, rs := st.rs }
     ⟨{ cs := { st.cs with w := some s.w }, d := s.d, rs := s.rs }, s.ops, s.failed⟩
 
-/-- `Close`: the chronicler object is discarded afterwards (the swamp is being evicted) -/
+/-- `Close`.  When it fails the chronicler keeps its writer; with `closeKeepsWriter` that writer is
+    still usable (the repaired `FileWriter.Close` leaves the file open), otherwise its descriptor is
+    closed and the scenarios go on with a fresh chronicler. -/
 def cCloseF (c : Cfg) (fc : FCfg) (mk : Mk) (st : CFSt) : CFOut :=
   match st.cs.w with
   | none => ⟨st, [], false⟩
   | some w =>
     let s := closeWF c fc mk { w := w, d := st.d, rs := st.rs }
-    ⟨{ cs := { st.cs with w := none }, d := s.d, rs := s.rs }, s.ops, s.failed⟩
+    ⟨{ cs := { st.cs with w := if s.failed && fc.closeKeepsWriter then some s.w else none }, d := s.d, rs := s.rs },
+     s.ops, s.failed⟩
 
 /-- `runCompactionLocked` / CLI / load self-heal under faults -/
 def cCompactF (c : Cfg) (fc : FCfg) (mk : Mk) (st : CFSt) (ep : EP) (order : List (Nat × Nat)) (skip : Bool) : CFOut :=
